@@ -415,6 +415,7 @@ func readersimMain(c *Ctx) {
 			if tc.NKeys == 0 {
 				tc.NKeys = 3
 			}
+			c.Begin(seed, rsCase{Table: tc})
 			vs, evals := runLeakCase(c, tc, seed)
 			c.Res.Evaluations += evals
 			c.Distinct(hash64("leak", mustJSON(tc)))
@@ -427,6 +428,7 @@ func readersimMain(c *Ctx) {
 		rc := rsGen(r, c.Mode, c.Thorough())
 		tape := simrt.NewTape(seed)
 		tape.NoRec = simrt.RaceBuild
+		c.Begin(seed, rc)
 		vs, evals := runRSCase(c, rc, tape)
 		c.Res.Evaluations += evals
 		c.Distinct(hash64("rs", mustJSON(rc)))
